@@ -111,9 +111,12 @@ type Unit struct {
 	nodeAnc        map[int]map[int]bool
 	freshErrs      []Term
 	assignCover    map[string]bool
+	assignRefs     map[string][]Term
 	prefixDone     map[string]bool
 	refHeaps       map[string]bool
 	defers         map[*ssa.Function][]*deferRec
+	afterRes       []Term
+	afterSig       *types.Signature
 }
 
 func (u *Unit) note(format string, a ...any) { u.notes[fmt.Sprintf(format, a...)] = true }
@@ -257,7 +260,7 @@ func (u *Unit) fieldLV(base *LV, field int) *LV {
 	st := u.structOf(base.ty)
 	f := st.Field(field)
 	if base.kind == lvObj {
-		if isPointerLike(f.Type()) {
+		if isRefLike(f.Type()) {
 			u.refHeaps[u.fieldHeapName(base.cellT, f.Name())] = true
 		}
 		fs := u.ty.sortOf(f.Type())
@@ -483,6 +486,7 @@ type loopInfo struct {
 	bound   int // 0 => invariant mode
 	variant Term
 	autoFrame []string
+	monoEntry map[string]Term
 }
 
 type node struct {
@@ -1067,7 +1071,7 @@ func (u *Unit) cutHeader(fn *ssa.Function, n *node, st *State, top bool) *State 
 			if k == "alloc" || strings.HasPrefix(k, "lg$") || strings.HasPrefix(k, "visited$") || strings.HasPrefix(k, "g$") || strings.HasPrefix(k, "G$") {
 				continue
 			}
-			if !strings.HasPrefix(string(rec.sort), "(Array Int ") || u.coveredByAssigns(k) {
+			if !strings.HasPrefix(string(rec.sort), "(Array Int ") || (u.coveredByAssigns(k) && len(u.assignRefs[k]) == 0) {
 				continue
 			}
 			l.autoFrame = append(l.autoFrame, k)
@@ -1124,6 +1128,17 @@ func (u *Unit) cutHeader(fn *ssa.Function, n *node, st *State, top bool) *State 
 	for _, k := range l.autoFrame {
 		u.s.assume(implies(out.reach, u.frameUnchangedPat(out, k)))
 	}
+	// monotone ghost counters never fall below their value at loop entry (kept: see keepEdge)
+	l.monoEntry = map[string]Term{}
+	for name := range u.eng.monotone {
+		k := "g$" + name
+		if cur, ok := out.heaps[k]; ok {
+			if old := u.heap(st, k, SInt); old != cur {
+				l.monoEntry[k] = old
+				u.s.assume(implies(out.reach, sx(">=", cur, old)))
+			}
+		}
+	}
 	if l.spec != nil {
 		for _, inv := range l.spec.Invariants {
 			u.s.assume(implies(out.reach, u.evalSpecBool(inv.Expr, out, fn, l)))
@@ -1173,6 +1188,16 @@ func (u *Unit) keepEdge(fn *ssa.Function, n *node, e *edge, top bool) {
 	for _, k := range l.autoFrame {
 		u.oblige(tmp, "inv.keep", fmt.Sprintf("loop%d.frame$%s", l.ordinal, mangle(k)), fn.Name(), u.frameUnchanged(tmp, k), n.b.Instrs[len(n.b.Instrs)-1].Pos())
 	}
+	{
+		var ks []string
+		for k := range l.monoEntry {
+			ks = append(ks, k)
+		}
+		sort.Strings(ks)
+		for _, k := range ks {
+			u.oblige(tmp, "inv.keep", fmt.Sprintf("loop%d.monotone$%s", l.ordinal, mangle(k)), fn.Name(), sx(">=", u.heap(tmp, k, SInt), l.monoEntry[k]), n.b.Instrs[len(n.b.Instrs)-1].Pos())
+		}
+	}
 	for _, inv := range l.spec.Invariants {
 		if inv.Assumed {
 			continue
@@ -1192,13 +1217,21 @@ func (u *Unit) keepEdge(fn *ssa.Function, n *node, e *edge, top bool) {
 }
 
 // frameUnchanged: objects that existed at unit entry are unchanged in heap k.
+func (u *Unit) frameExcl(k string) string {
+	s := ""
+	for _, ref := range u.assignRefs[k] {
+		s += " " + not(eq("r", ref))
+	}
+	return s
+}
+
 func (u *Unit) frameUnchanged(st *State, k string) Term {
 	cur := u.heap(st, k, u.heapSort[k])
 	old := u.heap(u.entry, k, u.heapSort[k])
 	if cur == old {
 		return "true"
 	}
-	return fmt.Sprintf("(forall ((r Int)) (=> (and (<= r %s) (>= r 0)) (= (select %s r) (select %s r))))", u.alloc(u.entry), cur, old)
+	return fmt.Sprintf("(forall ((r Int)) (=> (and (<= r %s) (>= r 0)%s) (= (select %s r) (select %s r))))", u.alloc(u.entry), u.frameExcl(k), cur, old)
 }
 
 func (u *Unit) frameUnchangedPat(st *State, k string) Term {
@@ -1207,13 +1240,15 @@ func (u *Unit) frameUnchangedPat(st *State, k string) Term {
 	if cur == old {
 		return "true"
 	}
-	return fmt.Sprintf("(forall ((r Int)) (! (=> (and (<= r %s) (>= r 0)) (= (select %s r) (select %s r))) :pattern ((select %s r))))", u.alloc(u.entry), cur, old, cur)
+	return fmt.Sprintf("(forall ((r Int)) (! (=> (and (<= r %s) (>= r 0)%s) (= (select %s r) (select %s r))) :pattern ((select %s r))))", u.alloc(u.entry), u.frameExcl(k), cur, old, cur)
 }
 
 // coveredByAssigns: the unit's contract lets heap k change on pre-existing objects.
 func (u *Unit) coveredByAssigns(k string) bool {
 	if u.assignCover == nil {
 		u.assignCover = map[string]bool{}
+		u.assignRefs = map[string][]Term{}
+		whole := map[string]bool{}
 		env := u.newEnv(u.entry, u.entry, u.top, u.eng.contractPkg(u.con))
 		for _, a := range u.con.Assigns {
 			loc := u.parseAssign(env, a)
@@ -1222,7 +1257,15 @@ func (u *Unit) coveredByAssigns(k string) bool {
 			}
 			for _, h := range loc.heap {
 				u.assignCover[h] = true
+				if (loc.kind == "field" || loc.kind == "elems" || loc.kind == "map") && loc.ref != "" {
+					u.assignRefs[h] = append(u.assignRefs[h], loc.ref)
+				} else {
+					whole[h] = true
+				}
 			}
+		}
+		for h := range whole {
+			delete(u.assignRefs, h)
 		}
 	}
 	return u.assignCover[k]
